@@ -126,6 +126,8 @@ pub fn alphabet(tier: Tier) -> Vec<Op> {
             Op::AddClause(vec![p(0, Eq, 0), p(0, Eq, 2)]),
             Op::AddClause(vec![p(1, Ne, 0), p(0, Ne, 1), p(1, Ne, 2)]),
             Op::NewLitFor(p(0, Ge, 1)),
+            // a disequality and an equality with the same constant over different variables
+            Op::SatisfyUnder(vec![p(1, Ne, 2), p(0, Eq, 2)], true),
         ]);
     }
     a
@@ -211,7 +213,7 @@ impl Property for C10 {
     }
     fn rule(&self, tier: Tier) -> String {
         format!(
-            "All sequences of exactly {} operations over an alphabet of {} API operations (new variable, new literal, new literal for a predicate, post of 14 constraint instances incl. a root-infeasible one and one that fixes a variable at the root, add_clause x7, satisfy, satisfy_under_assumptions x5 with/without core extraction, iterate 1/all solutions, optimise x4) on one solver after a fixed prologue of 4 variables; every prefix of every history is thereby executed. States = distinct history prefixes (no merging: the hidden solver state is what the property is about), transitions = operations extending a prefix. After every operation: no panic, no hang, the result equals the reference for the model accumulated so far (constraints, clauses, blocking clauses of iterated solutions), and the root bounds the solver reports for every variable lie in the declared domain and enclose all solutions of the accumulated model. A case = one complete history; non-trivial = it contains at least one solve after a model change.",
+            "All sequences of exactly {} operations over an alphabet of {} API operations (new variable, new literal, new literal for a predicate, post of 14 constraint instances incl. a root-infeasible one and one that fixes a variable at the root, add_clause x7, satisfy, satisfy_under_assumptions x6 with/without core extraction, iterate 1/all solutions, optimise x4) on one solver after a fixed prologue of 4 variables; every prefix of every history is thereby executed. States = distinct history prefixes (no merging: the hidden solver state is what the property is about), transitions = operations extending a prefix. After every operation: no panic, no hang, the result equals the reference for the model accumulated so far (constraints, clauses, blocking clauses of iterated solutions), and the root bounds the solver reports for every variable lie in the declared domain and enclose all solutions of the accumulated model. A case = one complete history; non-trivial = it contains at least one solve after a model change.",
             depth(tier),
             alphabet(tier).len()
         )
